@@ -116,7 +116,7 @@ var backgroundOps = map[string]bool{"publish": true, "recreateItems": true, "tra
 
 func firstOK(k kase) (bool, bool) { // (Attribute returns a variant, ok)
 	r := k.res()
-	if k.kind != "ok" || len(r) == 0 || !r[0] {
+	if k.kind != "ok" || len(r) == 0 || !r[0] || k.val == "extobjNoBody:s" {
 		return false, false
 	}
 	return true, true
@@ -230,6 +230,10 @@ func variantOf(tid string, isArr bool, n int) *ua.Variant {
 			return ua.MustVariant(&ua.LocalizedText{EncodingMask: ua.LocalizedTextText, Text: "t"})
 		case "string":
 			return ua.MustVariant("s")
+		case "extobj":
+			return ua.MustVariant(eoBody())
+		case "extobjNoBody":
+			return ua.MustVariant(ua.NewExtensionObject(nil))
 		default:
 			return ua.MustVariant(float64(1.5))
 		}
@@ -257,9 +261,23 @@ func variantOf(tid string, isArr bool, n int) *ua.Variant {
 			v[i] = "urn:x"
 		}
 		return ua.MustVariant(v)
+	case "extobj", "extobjNoBody":
+		v := make([]*ua.ExtensionObject, n)
+		for i := range v {
+			if tid == "extobj" {
+				v[i] = eoBody()
+			} else {
+				v[i] = ua.NewExtensionObject(nil)
+			}
+		}
+		return ua.MustVariant(v)
 	default:
 		return ua.MustVariant(make([]float64, n))
 	}
+}
+
+func eoBody() *ua.ExtensionObject {
+	return ua.NewExtensionObject(&ua.ReadValueID{NodeID: ua.NewNumericNodeID(0, 1), DataEncoding: &ua.QualifiedName{}})
 }
 
 func badOr(ok bool) ua.StatusCode {
@@ -288,6 +306,11 @@ func wrap(kind string, req ua.Request, good func(hdr *ua.ResponseHeader) ua.Resp
 		return good(sscript.Header(req, ua.StatusBadInternalError))
 	case "fault":
 		return sscript.Fault(req, ua.StatusBadUserAccessDenied)
+	case "notResponse":
+		// a decodable service message that is not a response: a request echoed back
+		return &sscript.RawMessage{Body: &ua.FindServersRequest{RequestHeader: &ua.RequestHeader{
+			AuthenticationToken: ua.NewTwoByteNodeID(0), Timestamp: time.Now(), RequestHandle: req.Header().RequestHandle,
+			AdditionalHeader: ua.NewExtensionObject(nil)}, EndpointURL: "opc.tcp://echo"}}
 	default:
 		if _, ok := req.(*ua.FindServersOnNetworkRequest); ok {
 			return &ua.ReadResponse{ResponseHeader: sscript.Header(req, ua.StatusOK)}
@@ -371,8 +394,26 @@ func (e *env) script(s *sscript.Server, sc *uasc.SecureChannel, r ua.Request) ua
 		if !e.armed.Load() || k.op != "publish" {
 			return holdForever(r)
 		}
-		switch e.pubN.Add(1) {
-		case 1:
+		pending := 0
+		if k.has('p') {
+			pending = 1
+		}
+		if k.has('P') {
+			pending = 2
+		}
+		n := int(e.pubN.Add(1))
+		dataMsg := func(seq uint32, results []ua.StatusCode) ua.Response {
+			return &ua.PublishResponse{ResponseHeader: sscript.Header(r, ua.StatusOK), SubscriptionID: 1, Results: results,
+				NotificationMessage: &ua.NotificationMessage{SequenceNumber: seq, PublishTime: time.Now(), NotificationData: []*ua.ExtensionObject{notifEO('d')}}}
+		}
+		switch {
+		case n == 1 && pending >= 1:
+			// a data notification: its acknowledgement is pending afterwards
+			return dataMsg(1, []ua.StatusCode{})
+		case n == 2 && pending == 2:
+			// the ack of #1 is answered with a status that makes the client retry it; #2 is added: two pending
+			return dataMsg(2, []ua.StatusCode{ua.StatusBadInternalError})
+		case n == pending+1:
 			subID := uint32(1)
 			if k.has('k') {
 				subID = 77
@@ -385,12 +426,12 @@ func (e *env) script(s *sscript.Server, sc *uasc.SecureChannel, r ua.Request) ua
 			}
 			return wrap(k.kind, r, func(hdr *ua.ResponseHeader) ua.Response {
 				return &ua.PublishResponse{ResponseHeader: hdr, SubscriptionID: subID, Results: e.statuses(),
-					NotificationMessage: &ua.NotificationMessage{SequenceNumber: 1, PublishTime: time.Now(), NotificationData: data}}
+					NotificationMessage: &ua.NotificationMessage{SequenceNumber: uint32(n), PublishTime: time.Now(), NotificationData: data}}
 			})
-		case 2:
+		case n == pending+2:
 			// marker: a data change with a recognisable client handle for subscription 1
 			return &ua.PublishResponse{ResponseHeader: sscript.Header(r, ua.StatusOK), SubscriptionID: 1, Results: []ua.StatusCode{},
-				NotificationMessage: &ua.NotificationMessage{SequenceNumber: 2, PublishTime: time.Now(), NotificationData: []*ua.ExtensionObject{
+				NotificationMessage: &ua.NotificationMessage{SequenceNumber: uint32(n), PublishTime: time.Now(), NotificationData: []*ua.ExtensionObject{
 					ua.NewExtensionObject(&ua.DataChangeNotification{MonitoredItems: []*ua.MonitoredItemNotification{{ClientHandle: markerHandle, Value: &ua.DataValue{}}}})}}}
 		}
 		return holdForever(r)
@@ -828,6 +869,17 @@ func runBackground(ctx context.Context, e *env, srv *sscript.Server, c *opcua.Cl
 			select {
 			case d := <-notifCh:
 				if dc, ok := d.Value.(*ua.DataChangeNotification); ok && len(dc.MonitoredItems) == 1 && dc.MonitoredItems[0].ClientHandle == markerHandle {
+					// the notifications that built up the pending acknowledgements are not part of the case
+					skip := 0
+					if k.has('p') {
+						skip = 1
+					}
+					if k.has('P') {
+						skip = 2
+					}
+					if len(deliv) >= skip {
+						deliv = deliv[skip:]
+					}
 					if deliv == "" {
 						deliv = "-"
 					}
@@ -893,7 +945,7 @@ func genCases(o *h.Opts, rnd *h.Rand) []kase {
 			cases = append(cases, k)
 		}
 	}
-	kinds := []string{"ok", "badStatus", "fault", "wrongType"}
+	kinds := []string{"ok", "badStatus", "fault", "wrongType", "notResponse"}
 	gb := func(n int, pat int) string { // n results, bit i of pat set = Bad
 		if n == 0 {
 			return "-"
@@ -927,7 +979,8 @@ func genCases(o *h.Opts, rnd *h.Rand) []kase {
 		}
 	}
 	vals := []string{"absent", "null:s", "byte:s", "sbyte:s", "int32:s", "qname:s", "ltext:s", "string:s", "double:s",
-		"sbyte:a0", "sbyte:a2", "int32:a0", "int32:a1", "qname:a0", "qname:a1", "ltext:a0", "ltext:a2", "string:a0", "string:a2", "double:a0", "double:a3"}
+		"sbyte:a0", "sbyte:a2", "int32:a0", "int32:a1", "qname:a0", "qname:a1", "ltext:a0", "ltext:a2", "string:a0", "string:a2", "double:a0", "double:a3",
+		"extobj:s", "extobjNoBody:s", "extobj:a0", "extobj:a2", "extobjNoBody:a0", "extobjNoBody:a1"}
 	for _, op := range getterOps {
 		for _, kd := range kinds {
 			k := base(op)
@@ -1022,6 +1075,24 @@ func genCases(o *h.Opts, rnd *h.Rand) []kase {
 		k := base("publish")
 		k.kind, k.nReq, k.results, k.notifs = kd, 0, "-", "d"
 		add(k)
+	}
+	// acknowledgements pending when the response arrives: every result count against 1 and 2 pending acks
+	for _, fl := range []string{"p", "P"} {
+		for m := 0; m <= 3; m++ {
+			for _, pat := range []int{0, (1 << uint(m)) - 1} {
+				k := base("publish")
+				k.nReq, k.results, k.flags, k.notifs = 0, gb(m, pat), fl, "d"
+				add(k)
+			}
+		}
+	}
+	// reads of extension object values through the plain calls as well
+	for _, v := range []string{"extobj:s", "extobjNoBody:s", "extobj:a0", "extobjNoBody:a0", "extobj:a2"} {
+		for _, op := range []string{"read", "nodeAttributes"} {
+			k := base(op)
+			k.val = v
+			add(k)
+		}
 	}
 	return cases
 }
@@ -1126,22 +1197,16 @@ func main() {
 		r.Hit("outcome:" + res)
 		r.Sample(fmt.Sprintf("%s -> %s", c, line))
 		r.Compare(d, "op "+c, line)
+		// the signature of the defect repaired in round 2 this case would have hit (all are `fixed:`
+		// now, so a panic here is reported as a new failure; the name only helps to read the report)
 		sig := signature(k)
-		sigTxt := sig
-		if sigTxt == "" {
-			sigTxt = "-"
-		}
-		r.Compare(d, "sig "+c, sigTxt)
 
 		// ---- the property's own oracle, on the implementation alone: no client call panics
 		if res == "panic" {
 			if sig != "" && !panicTextMatches(sig, msg) {
-				sig = "" // a different panic than the recorded one
+				sig = "" // a different panic than the repaired one
 			}
 			r.Fail(c, sig, "client panicked: "+msg)
-			if sig != "" {
-				r.Confirm(sig, c+" -> "+msg)
-			}
 		}
 	}
 	for _, op := range append(append([]string{}, plainOps...), append(getterOps, "call", "references", "translate", "subscribe", "subCancel",
